@@ -1,5 +1,5 @@
 (* C08 / C18 runner (AnimEncoder model).  Input, one case per line:
-     enc <px|al|st> <fixes: 3 chars 0/1 blend filler alph> W H loop kmin kmax lossless mixed quality simple n
+     enc <px|al|st> W H loop kmin kmax lossless mixed quality simple n
          { iw ih dur obg okey oa ob oc pixhex }*n
      qmd q | san kmin kmax | fcr W H hexprev hexcurr | snap x0 y0 x1 y1
      sim r g b a r g b a md | lpx fix r g b a r g b a
@@ -34,8 +34,8 @@ let id (i : M.img) = i
 
 let () = iter_lines (fun line ->
   match split_ws line with
-  | "enc" :: mode :: fx :: w :: h :: loop :: kmin :: kmax :: ll :: mixed :: q :: simple :: _n :: rest ->
-    let fixes = { M.fix_blend = fx.[0] = '1'; fix_filler = fx.[1] = '1'; fix_alph = fx.[2] = '1' } in
+  | "enc" :: mode :: w :: h :: loop :: kmin :: kmax :: ll :: mixed :: q :: simple :: _n :: rest ->
+    let fixes = M.repaired in  (* the model of the code under test; not selectable *)
     let rec frames r = match r with
       | iw :: ih :: dur :: obg :: okey :: oa :: ob :: oc :: pix :: tl ->
         let (fs, os) = frames tl in
